@@ -49,6 +49,24 @@ class TickClock:
         return self.now
 
 
+class scripted_time:
+    """Context manager: library code outside a Session (plain `auto_search()` calls of fixtures) also runs on scripted clocks,
+    so that what it returns does not depend on how fast this machine is (random proof trees are drawn until a time limit)."""
+
+    def __enter__(self):
+        import comb_spec_searcher.comb_spec_searcher as cssmod
+        import comb_spec_searcher.tree_searcher as ts
+
+        self.mods = (cssmod, ts)
+        self.old = (cssmod.time, ts.time)
+        cssmod.time, ts.time = TickClock(), TickClock()
+        return self
+
+    def __exit__(self, *a):
+        self.mods[0].time, self.mods[1].time = self.old
+        return False
+
+
 def _install():
     if _PATCHED:
         return
